@@ -17,7 +17,28 @@ from facts import Tree, walk, callee, target_key
 
 IOERR = "std::io::Error"
 SHORT_PRIMS = {"std::io::Write::write": "write_all", "std::io::Read::read": "read_exact",
-               "std::io::Write::write_vectored": "write_all", "std::io::Read::read_vectored": "read_exact"}
+               "std::io::Write::write_vectored": "write_all", "std::io::Read::read_vectored": "read_exact",
+               # "read until end of stream": succeeds with FEWER bytes than the caller expects when the stream ends early
+               "std::io::Read::read_to_end": "read_exact", "std::io::Read::read_to_string": "read_exact"}
+TO_END = ("std::io::Read::read_to_end", "std::io::Read::read_to_string")
+
+
+def _buffer_len_compared(tree, n, body):
+    """read_to_end(&mut buf): is `buf.len()` compared (or asserted on) somewhere in the function?"""
+    from facts import root_local, strip
+    args = n.get("args") or []
+    rl = root_local(args[0]) if args else None
+    if not rl:
+        return False
+    for x in walk(body):
+        if x.get("k") == "MCall" and x.get("name") in ("len", "is_empty") and (root_local(x["recv"]) or (None,))[0] == rl[0]:
+            up = tree.up(x)
+            while up is not None and up.get("k") in ("Ref", "Un", "Cast"):
+                up = tree.up(up)
+            if up is not None and ((up.get("k") == "Bin" and up.get("op") in ("==", "!=", "<", "<=", ">", ">=")) or
+                                   (up.get("k") == "Macro" and up.get("name", "").startswith("assert"))):
+                return True
+    return False
 UNWRAPS = {"unwrap", "expect", "unwrap_unchecked"}
 SWALLOW = {"ok", "err", "is_ok", "is_err", "unwrap_or", "unwrap_or_default", "unwrap_or_else", "iter",
            "into_iter", "unwrap_err", "expect_err", "is_ok_and", "is_err_and"}
@@ -217,8 +238,8 @@ def run(facts, rep, thorough=False):
                 if f and f["def"] in SHORT_PRIMS:
                     n_prims += 1
                     key = "%s/%s" % (p, f["def"])
-                    in_loop = tree.enclosing(n, ("While", "Loop")) is not None
-                    if in_loop or _compared(tree, n):
+                    in_loop = tree.enclosing(n, ("While", "Loop")) is not None and f["def"] not in TO_END
+                    if in_loop or _compared(tree, n) or (f["def"] in TO_END and _buffer_len_compared(tree, n, body)):
                         rep.ok("R-IOERR(a)", key, "short-count primitive inside a retry loop / count compared",
                                facts.loc(p, n))
                     elif in_tree:
